@@ -236,7 +236,9 @@ func cmdCheck(args []string) int {
 	violationOutcomes := map[string]sym.Outcome{}
 	knownOutcomes := map[string]sym.Outcome{}
 	nextID := 0
-	for _, hs := range spec.Harnesses {
+	// translator validation on the repository's own test vectors rides along with every check
+	harnesses := append([]HarnessSpec{{Name: "VerifH_selftest", Covers: []string{"negotiate", "lexer", "codecs", "selector", "routing"}}}, spec.Harnesses...)
+	for _, hs := range harnesses {
 		if *only != "" && hs.Name != *only {
 			continue
 		}
